@@ -152,6 +152,69 @@ func realProcesses(o *hc.Out, g *hc.Gen, bin, scratch string, rounds int) {
 	}
 }
 
+// lockTimeouts: while one handler holds the table for update (or for read), a second one that cannot get
+// access within its wait timeout must fail with the lock-timeout error and change nothing.
+func lockTimeouts(o *hc.Out, scratch string, rounds int) {
+	for r := 0; r < rounds; r++ {
+		d := filepath.Join(scratch, fmt.Sprintf("c09t-%d", r))
+		_ = os.RemoveAll(d)
+		_ = os.MkdirAll(d, 0o755)
+		path := filepath.Join(d, "tbl.csv")
+		_ = os.WriteFile(path, []byte("0"), 0o644)
+		ctx := context.Background()
+		holder := file.NewContainer()
+		holdForUpdate := r%2 == 0
+		var hh *file.Handler
+		var err error
+		if holdForUpdate {
+			hh, err = holder.CreateHandlerForUpdate(ctx, path, time.Second, time.Millisecond)
+		} else {
+			hh, err = holder.CreateHandlerForRead(ctx, path, time.Second, time.Millisecond)
+		}
+		if err != nil {
+			o.Law("handler_error", map[string]interface{}{"scenario": "lock_timeout holder", "error": err.Error()})
+			continue
+		}
+		before := fsState(d, "tbl.csv")
+		other := file.NewContainer()
+		_, e1 := other.CreateHandlerForUpdate(ctx, path, 40*time.Millisecond, time.Millisecond)
+		var e2 error
+		if holdForUpdate {
+			_, e2 = other.CreateHandlerForRead(ctx, path, 40*time.Millisecond, time.Millisecond)
+		}
+		after := fsState(d, "tbl.csv")
+		rep := map[string]interface{}{"holder_for_update": holdForUpdate, "before": before, "after": after, "update_error": fmt.Sprint(e1), "read_error": fmt.Sprint(e2)}
+		if _, ok := e1.(*file.TimeoutError); !ok {
+			o.Law("lock_timeout_expected", rep)
+		}
+		if holdForUpdate {
+			if _, ok := e2.(*file.TimeoutError); !ok {
+				o.Law("lock_timeout_expected", rep)
+			}
+		}
+		if before != after {
+			o.Law("timeout_changed_control_files", rep)
+		}
+		b, _ := os.ReadFile(path)
+		if string(b) != "0" {
+			o.Law("timeout_changed_data", rep)
+		}
+		if holdForUpdate {
+			_ = holder.Commit(hh)
+		} else {
+			_ = holder.Close(hh)
+		}
+		if st := fsState(d, "tbl.csv"); st != "L0R0" {
+			rep["state"] = st
+			o.Law("control_files_left", rep)
+		}
+		o.Eval()
+		o.NonTrivial(fmt.Sprintf("timeout:%v:%s", holdForUpdate, after))
+		o.Count("lock_timeout_rounds")
+		_ = os.RemoveAll(d)
+	}
+}
+
 func run(seed int64, n int, dir string, _ []string) {
 	g := hc.NewGen(seed)
 	o := hc.NewOut(dir)
@@ -163,6 +226,7 @@ func run(seed int64, n int, dir string, _ []string) {
 	if bin := os.Getenv("VERIF_CSVQ"); bin != "" {
 		realProcesses(o, g, bin, scratch, 2+n/400)
 	}
+	lockTimeouts(o, scratch, 2+n/100)
 	for it := 0; it < n; it++ {
 		nproc := 2 + g.Intn(2)
 		if g.Intn(6) == 0 {
